@@ -194,7 +194,16 @@ def run(ctx):
 
         writes = []  # (block, stores)
         for i, s_ in whole:
-            writes.append((i, stores_in(fn_expr_rvalue(f, s_["rv"]))))
+            rv_e = fn_expr_rvalue(f, s_["rv"])
+            sts = stores_in(rv_e)
+            # the assigned value may be a local collection filled beforehand: `let mut q = HashSet::new(); .. q.extend(..); self.used_qubits = q`
+            if rv_e[0] == "call" and rv_e[1] and rv_e[1].rsplit("::", 1)[-1] in ("new", "default", "with_capacity", "with_capacity_and_hasher", "with_hasher"):
+                for bb2, t2, c2 in f.calls():
+                    if c2 and c2.get("name") in ("extend", "insert", "push", "append", "union") and len(t2["args"]) >= 2:
+                        r2 = fn_expr_operand(f, t2["args"][0])
+                        if r2[0] == "call" and r2[1] == rv_e[1] and r2[3] == rv_e[3]:
+                            sts |= stores_in(fn_expr_operand(f, t2["args"][1]))
+            writes.append((i, sts))
         for bb, t, c in f.calls():
             if c and c.get("name") in ("extend", "insert", "union", "append") and len(t["args"]) >= 2:
                 recv = fn_expr_operand(f, t["args"][0])
